@@ -10,3 +10,4 @@ PROPERTY P_PubRuleOK
 PROPERTY P_AssignOnOK
 PROPERTY P_NoRaise
 PROPERTY P_SelectOnOK
+PROPERTY P_SwitchOneOK
